@@ -118,6 +118,7 @@ class Run(object):
         self.d_fail = []        # (case, impl result)
         self.known = {}         # sig -> (what, count)
         self.k_fail = []        # (case, impl obs, model obs)
+        self.crashes = []       # cases the harness could not evaluate while a tie was broken
         self.evaluations = 0
         self.validated = 0
         self.distinct = set()
@@ -158,7 +159,7 @@ class Run(object):
             out, bad = [], 0
             for r in it:
                 out.append(r)
-                if r[0] == 'crash' or (unlisted(r) and bad + 1 >= MAX_FAILS):
+                if (r[0] == 'crash' and not self.ctx.lean.broken) or (unlisted(r) and bad + 1 >= MAX_FAILS):
                     break
                 bad += 1 if unlisted(r) else 0
         else:
@@ -170,7 +171,7 @@ class Run(object):
                 out.extend(part)
                 nbad = sum(1 for r in part if unlisted(r))
                 bad += nbad
-                if bad >= MAX_FAILS or any(r[0] == 'crash' for r in part):
+                if bad >= MAX_FAILS or (any(r[0] == 'crash' for r in part) and not self.ctx.lean.broken):
                     break
                 # slices grow while everything is fine (less synchronisation), shrink on the first failure
                 step = 8 * self.jobs if nbad else min(step * 2, 128 * self.jobs)
@@ -188,6 +189,15 @@ class Run(object):
         lines, idx = [], []
         for i, (case, (st, r)) in enumerate(zip(cases, results)):
             if st == 'crash':
+                # a crash of harness code while a tie to the source is broken (or raised by a guard as BrokenTie) is put down
+                # to the changed implementation: recorded as a broken obligation, the case is skipped, the search goes on.
+                # With every tie intact it is a defect of the machinery: exit 2.  (docs/audit-round4.md, finding 2)
+                if ctx.lean.broken or 'BrokenTie' in r.splitlines()[-1]:
+                    note = 'harness could not evaluate a case: %s' % r.strip().splitlines()[-1][:300]
+                    if note not in ctx.lean.broken:
+                        ctx.lean.broken.append(note)
+                    self.crashes.append({'case': common.jsonable(case), 'traceback': r[-3000:]})
+                    continue
                 raise HarnessError('run_impl crashed on case %s:\n%s' % (json.dumps(common.jsonable(case))[:600], r))
             self.evaluations += 1
             for k, v in (r.get('stats') or {}).items():
@@ -469,6 +479,7 @@ def main(argv=None):
                        'lake_output_tail': ctx.lean.build_output[-3000:],
                        'correspondence_disagreements': [
                            {'case': c, 'impl': i, 'model': m} for c, i, m in run.k_fail[:5]],
+                       'cases_the_harness_could_not_evaluate': run.crashes[:3],
                        'seed': seed, 'tier': args.tier}
             p = write_replay(ctx, 'broken-seed%d.json' % seed, payload)
             violations = 1
@@ -485,8 +496,23 @@ def main(argv=None):
     except HarnessError as e:
         print('HARNESS ERROR: %s' % e, file=sys.stderr)
         return 2
-    except Exception:
-        traceback.print_exc()
+    except Exception as e:
+        # setup() / generate() / model_line() raised.  While a tie to the source is broken (or when a guard raised BrokenTie, or
+        # the exception passed through the workspace copy of the repository) this is put down to the changed implementation
+        # and reported as a broken obligation; otherwise it is a defect of the machinery.
+        tb = traceback.format_exc()
+        through_repo = bool(_REPO_COPY) and any(os.path.realpath(f.filename).startswith(_REPO_COPY)
+                                                for f in traceback.extract_tb(sys.exc_info()[2]))
+        lean = getattr(ctx, 'lean', None)
+        if lean is not None and not args.replay and (lean.broken or isinstance(e, common.BrokenTie) or through_repo):
+            broken = list(lean.broken) + ['the harness could not run: %s: %s' % (type(e).__name__, str(e)[:300])]
+            payload = {'property': args.prop, 'kind': 'broken-obligation', 'broken': broken, 'theorems': lean.obligations,
+                       'generated_tables_changed': lean.gen_changed, 'traceback': tb[-4000:], 'seed': seed, 'tier': args.tier}
+            p = write_replay(ctx, 'broken-seed%d.json' % seed, payload)
+            print('VIOLATION property=%s replay=%s no-failing-input-found' % (args.prop, p))
+            print('[%s] FAIL tier=%s seed=%d: %s' % (args.prop, args.tier, seed, broken[-1]))
+            return 1
+        sys.stderr.write(tb)
         return 2
     finally:
         if run is not None:
